@@ -23,6 +23,7 @@ def draws_for(seed, sizes):
 
 class C16(Prop):
     id = 'C16'
+    extracted = True      # sampling kernels regenerated from the current source (harness/extract.py, Extracted/EquivC16.lean)
     quick_cases = 2500
     thorough_cases = 40000
     quick_budget_s = 45
